@@ -1,7 +1,11 @@
 (* Proofs for property C10 about Model/Group.v.
    Part 1: the abstraction (summary, contrib, total) and its algebra.
    Part 2: try_add / add / add_all / merge / fit conserve the total.
-   Part 3: GroupedValue.  Part 4: recipes, lists, categorize. *)
+   Part 3: GroupedValue.  Part 4a: one BTreeMap operation as a permutation.
+   4b: categorize.  4d: units kept by add/fit, fit under a conditional oracle.
+   4c: definitions and references.  4e: IngredientList.  4f: sorted keys.
+   4g: cookware definitions.  Then the witnesses.  (Quantity::fit of
+   Model/Convert.v as the oracle: Proofs/GroupFit.v.) *)
 From CL Require Import Base.StrLemmas Model.Aisle Model.Group.
 From Coq Require Import QArith Lia Lqa Permutation Setoid Morphisms.
 Local Open Scope Q_scope.
@@ -1004,6 +1008,160 @@ Proof.
 Qed.
 
 (* ------------------------------------------------------------------ *)
+(* Part 4d: what a group holds keeps the units of what went in          *)
+
+Lemma in_iter g x :
+  In x (Group.iter g) <->
+  (exists p, known g p = Some x) \/ In x (map snd (unknown g)) \/ In x (other g) \/ no_unit g = Some x.
+Proof.
+  unfold Group.iter. rewrite !in_app_iff, in_flat_map.
+  assert (K : (exists p, In p pq_all /\ In x (opt_list (known g p))) <-> (exists p, known g p = Some x)).
+  { split; intros (p & H).
+    - exists p. destruct H as [_ H]. destruct (known g p); cbn in H; [destruct H as [->|[]]; reflexivity | contradiction].
+    - exists p. split; [destruct p; cbn; tauto|]. rewrite H. left; reflexivity. }
+  assert (N : In x (opt_list (no_unit g)) <-> no_unit g = Some x).
+  { destruct (no_unit g); cbn; split; intro H; try contradiction; try discriminate.
+    - destruct H as [->|[]]; reflexivity.
+    - inversion H; auto. }
+  rewrite K, N. tauto.
+Qed.
+
+Lemma in_map_insert {V} k (s : V) U x : In x (map snd (map_insert k s U)) -> x = s \/ In x (map snd U).
+Proof.
+  induction U as [|[k' v'] r IH]; cbn [map_insert map snd In].
+  - intros [H|[]]; auto.
+  - destruct (str_eqb k k'); cbn [map snd In]; intros [H|H]; auto. destruct (IH H); auto.
+Qed.
+
+Lemma in_iter_push_other g q x : In x (Group.iter (push_other g q)) -> x = q \/ In x (Group.iter g).
+Proof.
+  rewrite !in_iter. unfold push_other; cbn [known unknown other no_unit]. rewrite in_app_iff. cbn [In].
+  intros [H|[H|[[H|[H|[]]]|H]]]; auto 6.
+Qed.
+Lemma in_iter_set_no_unit g q x : In x (Group.iter (set_no_unit g q)) -> x = q \/ In x (Group.iter g).
+Proof.
+  rewrite !in_iter. unfold set_no_unit; cbn [known unknown other no_unit].
+  intros [H|[H|[H|H]]]; auto 6. inversion H; auto.
+Qed.
+Lemma in_iter_set_known g p q x : In x (Group.iter (set_known g p q)) -> x = q \/ In x (Group.iter g).
+Proof.
+  rewrite !in_iter. unfold set_known; cbn [known unknown other no_unit].
+  intros [(p' & H)|[H|[H|H]]]; auto 6. destruct (pq_eqb p' p); [inversion H; auto | right; left; eauto].
+Qed.
+Lemma in_iter_set_unknown g k q x : In x (Group.iter (set_unknown g k q)) -> x = q \/ In x (Group.iter g).
+Proof.
+  rewrite !in_iter. unfold set_unknown; cbn [known unknown other no_unit].
+  intros [H|[H|[H|H]]]; auto 6. destruct (in_map_insert _ _ _ _ H); auto.
+Qed.
+
+Lemma try_add_unit T' a b s : try_add T' a b = Done (Some s) -> qunit s = qunit a.
+Proof.
+  unfold try_add. destruct (compatible_unit T' a b) as [to|]; [|discriminate].
+  destruct (match to with Some u => convert_qty T' b u | None => Done (Some (qval b)) end) as [r|]; cbn [obind]; [|discriminate].
+  destruct r as [vb|]; [|discriminate]. destruct (value_add (qval a) vb); intro H; inversion H; reflexivity.
+Qed.
+
+Section UnitInvariant.
+  Variable P : qty -> Prop.
+  Hypothesis P_unit : forall a b, qunit a = qunit b -> P a -> P b.
+
+  Lemma add_to_forall T' g stored q store g' :
+    (forall s x, In x (Group.iter (store s)) -> x = s \/ In x (Group.iter g)) ->
+    Forall P (Group.iter g) -> In stored (Group.iter g) -> P q ->
+    add_to T' g stored q store = Done g' -> Forall P (Group.iter g').
+  Proof.
+    intros Hst Hg Hin Hq. unfold add_to. destruct (try_add T' stored q) as [r|] eqn:E; cbn [obind]; [|discriminate].
+    rewrite Forall_forall in Hg.
+    destruct r as [s|]; intro H; inversion H; subst g'; apply Forall_forall; intros x Hx.
+    - destruct (Hst _ _ Hx) as [->|Hx']; [|auto]. apply (P_unit stored); [symmetry; eapply try_add_unit; eassumption | auto].
+    - destruct (in_iter_push_other _ _ _ Hx) as [->|Hx']; auto.
+  Qed.
+
+  Lemma add_forall T' g q g' :
+    Forall P (Group.iter g) -> P q -> add T' g q = Done g' -> Forall P (Group.iter g').
+  Proof.
+    intros Hg Hq. unfold add.
+    assert (Hfresh : forall g1, (forall x, In x (Group.iter g1) -> x = q \/ In x (Group.iter g)) -> Forall P (Group.iter g1)).
+    { intros g1 H1. apply Forall_forall. intros x Hx. rewrite Forall_forall in Hg. destruct (H1 _ Hx) as [->|]; auto. }
+    destruct (is_text (qval q)).
+    { intro H; inversion H; subst. apply Hfresh. apply in_iter_push_other. }
+    destruct (qunit q) as [k|].
+    - destruct (find_unit T' k) as [u|].
+      + destruct (known g (upq u)) as [st|] eqn:K.
+        * apply add_to_forall; auto; [intros; eapply in_iter_set_known; eassumption | apply in_iter; eauto].
+        * intro H; inversion H; subst. apply Hfresh. apply in_iter_set_known.
+      + destruct (aget k (unknown g)) as [st|] eqn:K.
+        * apply add_to_forall; auto; [intros; eapply in_iter_set_unknown; eassumption|].
+          apply in_iter. right; left. clear -K. induction (unknown g) as [|[k' v'] r IH]; cbn [aget] in K; [discriminate|].
+          cbn [map snd In]. destruct (str_eqb k k'); [inversion K; auto | auto].
+        * intro H; inversion H; subst. apply Hfresh. apply in_iter_set_unknown.
+    - destruct (no_unit g) as [st|] eqn:K.
+      + apply add_to_forall; auto; [intros; eapply in_iter_set_no_unit; eassumption | apply in_iter; auto 6].
+      + intro H; inversion H; subst. apply Hfresh. apply in_iter_set_no_unit.
+  Qed.
+
+  Lemma add_all_forall T' qs : forall g g',
+    Forall P (Group.iter g) -> Forall P qs -> add_all T' g qs = Done g' -> Forall P (Group.iter g').
+  Proof.
+    induction qs as [|q r IH]; intros g g' Hg Hq; cbn [add_all].
+    - intro H; inversion H; subst; exact Hg.
+    - inversion Hq; subst. destruct (add T' g q) as [g1|] eqn:E; cbn [obind]; [|discriminate].
+      apply IH; [eapply add_forall; eassumption | assumption].
+  Qed.
+
+  Lemma fit_slots_forall fitq ps : forall g,
+    (forall q q', fitq q = Some q' -> P q -> P q') ->
+    Forall P (Group.iter g) -> Forall P (Group.iter (fst (fit_slots fitq g ps))).
+  Proof.
+    induction ps as [|p r IH]; intros g Hfit Hg; cbn [fit_slots fst]; [exact Hg|].
+    destruct (known g p) as [q|] eqn:K; [|apply IH; auto].
+    destruct (fitq q) as [q'|] eqn:F; [|exact Hg].
+    apply IH; [exact Hfit|]. apply Forall_forall. intros x Hx. rewrite Forall_forall in Hg.
+    destruct (in_iter_set_known _ _ _ _ Hx) as [->|]; [|auto].
+    apply (Hfit q q' F). apply Hg. apply in_iter. eauto.
+  Qed.
+End UnitInvariant.
+
+Lemma q_free_unit T a b : qunit a = qunit b -> q_free T a -> q_free T b.
+Proof. unfold q_free. intros E H k u. rewrite <- E. apply H. Qed.
+
+Definition gfree (T : table) (g : gq) : Prop := Forall (q_free T) (Group.iter g).
+
+Lemma gfree_empty T : gfree T gq_empty.
+Proof. constructor. Qed.
+
+
+(* GroupedQuantity::fit with any Quantity::fit that keeps the contribution of
+   offset-free quantities and stays offset-free (what C09 gives, see
+   Proofs/GroupFit.v): the total is kept, also when it stops half-way *)
+Section FitFree.
+  Variable T : table.
+  Variable fitq : qty -> option qty.
+  Hypothesis fit_ok : forall q q', q_free T q -> fitq q = Some q' -> contrib T q' ≡ contrib T q /\ q_free T q'.
+
+  Lemma fit_slots_free ps : forall g,
+    gfree T g -> total T (fst (fit_slots fitq g ps)) ≡ total T g /\ gfree T (fst (fit_slots fitq g ps)).
+  Proof.
+    induction ps as [|p r IH]; intros g Hg; cbn [fit_slots fst]; [split; [reflexivity | exact Hg]|].
+    destruct (known g p) as [q|] eqn:K; [|apply IH; exact Hg].
+    destruct (fitq q) as [q'|] eqn:F; [|split; [reflexivity | exact Hg]].
+    assert (Hq : q_free T q).
+    { unfold gfree in Hg. rewrite Forall_forall in Hg. apply Hg. apply in_iter. eauto. }
+    destruct (fit_ok q q' Hq F) as [Hc Hq'].
+    assert (Hg' : gfree T (set_known g p q')).
+    { unfold gfree in *. apply Forall_forall. intros x Hx. rewrite Forall_forall in Hg.
+      destruct (in_iter_set_known _ _ _ _ Hx) as [->|]; auto. }
+    destruct (IH _ Hg') as [I1 I2]. split; [|exact I2].
+    rewrite I1. apply (splus_cancel_r _ _ (copt T (known g p))).
+    rewrite total_set_known, K, copt_some, Hc. reflexivity.
+  Qed.
+
+  Lemma fit_free_total g :
+    gfree T g -> total T (fst (fit fitq g)) ≡ total T g /\ gfree T (fst (fit fitq g)).
+  Proof. apply fit_slots_free. Qed.
+End FitFree.
+
+(* ------------------------------------------------------------------ *)
 (* Part 4c: a definition and the quantities counted under it           *)
 
 Definition nth_ing (all : list ingredient) (i : N) : option ingredient := nth_error all (N.to_nat i).
@@ -1141,19 +1299,23 @@ Section Recipes.
   Variable T : table.
   Variable fitq : qty -> option qty.
   Hypothesis Hsane : sane T = true.
-  (* C09: Quantity::fit keeps the amount *)
-  Hypothesis fit_amount : forall q q', fitq q = Some q' -> contrib T q' ≡ contrib T q.
+  (* C09: Quantity::fit keeps the amount of offset-free quantities and stays within offset-free units *)
+  Hypothesis fit_ok : forall q q', q_free T q -> fitq q = Some q' -> contrib T q' ≡ contrib T q /\ q_free T q'.
 
   Lemma group_quantities_ok all i x :
     consistent all = true -> recipe_free T all -> nth_ing all i = Some x -> is_definition (irel x) = true ->
-    exists g, group_quantities T fitq all x = Done g /\ total T g ≡ sum_contrib T (owned all i x).
+    exists g, group_quantities T fitq all x = Done g /\ total T g ≡ sum_contrib T (owned all i x) /\ gfree T g.
   Proof.
     intros Hc Hf Hx Hd. unfold group_quantities. rewrite (all_quantities_ok all i x Hc Hx Hd). cbn [obind].
-    destruct (fold_free T (owned all i x) Hsane) as (g & H1 & H2).
+    assert (Hq : Forall (q_free T) (owned all i x)).
     { apply Forall_forall. intros q Hq.
       destruct (owned_in all i x q (proj2 (nth_ing_in _ _ _ Hx)) Hq) as (y & Hy & E). eapply Hf; eassumption. }
+    destruct (fold_free T (owned all i x) Hsane Hq) as (g & H1 & H2).
     rewrite H1. cbn [obind]. eexists. split; [reflexivity|].
-    rewrite (fit_total T fitq fit_amount). exact H2.
+    assert (Hg : gfree T g).
+    { apply (add_all_forall (q_free T) (q_free_unit T) T (owned all i x) gq_empty g); [constructor | exact Hq | exact H1]. }
+    destruct (fit_free_total T fitq fit_ok g Hg) as [F1 F2]. split; [|exact F2].
+    rewrite F1. exact H2.
   Qed.
 
   (* the indices group_ingredients reports: the definitions, in recipe order *)
@@ -1180,7 +1342,7 @@ Section Recipes.
       { intro k. rewrite N2Nat.inj_add. change (N.to_nat 1) with 1%nat.
         replace (N.to_nat idx + 1 + k)%nat with (N.to_nat idx + S k)%nat by lia. rewrite <- Hn. reflexivity. }
       destruct (is_definition (irel x)) eqn:Hd.
-      + destruct (group_quantities_ok all idx x Hc Hf Hx Hd) as (g & G1 & G2).
+      + destruct (group_quantities_ok all idx x Hc Hf Hx Hd) as (g & G1 & G2 & _).
         rewrite G1, H1. cbn [obind]. eexists. split; [reflexivity|]. split.
         * cbn [map fst]. rewrite H2. reflexivity.
         * constructor; [|exact H3]. cbn. auto.
@@ -1192,130 +1354,6 @@ Section Recipes.
                map (fun e => fst (fst e)) es = def_indices all 0 /\ Forall (entry_ok all) es.
   Proof. intros Hc Hf. unfold group_ingredients. apply group_from_ok; auto. Qed.
 End Recipes.
-
-(* ------------------------------------------------------------------ *)
-(* Part 4d: what a group holds keeps the units of what went in          *)
-
-Lemma in_iter g x :
-  In x (Group.iter g) <->
-  (exists p, known g p = Some x) \/ In x (map snd (unknown g)) \/ In x (other g) \/ no_unit g = Some x.
-Proof.
-  unfold Group.iter. rewrite !in_app_iff, in_flat_map.
-  assert (K : (exists p, In p pq_all /\ In x (opt_list (known g p))) <-> (exists p, known g p = Some x)).
-  { split; intros (p & H).
-    - exists p. destruct H as [_ H]. destruct (known g p); cbn in H; [destruct H as [->|[]]; reflexivity | contradiction].
-    - exists p. split; [destruct p; cbn; tauto|]. rewrite H. left; reflexivity. }
-  assert (N : In x (opt_list (no_unit g)) <-> no_unit g = Some x).
-  { destruct (no_unit g); cbn; split; intro H; try contradiction; try discriminate.
-    - destruct H as [->|[]]; reflexivity.
-    - inversion H; auto. }
-  rewrite K, N. tauto.
-Qed.
-
-Lemma in_map_insert {V} k (s : V) U x : In x (map snd (map_insert k s U)) -> x = s \/ In x (map snd U).
-Proof.
-  induction U as [|[k' v'] r IH]; cbn [map_insert map snd In].
-  - intros [H|[]]; auto.
-  - destruct (str_eqb k k'); cbn [map snd In]; intros [H|H]; auto. destruct (IH H); auto.
-Qed.
-
-Lemma in_iter_push_other g q x : In x (Group.iter (push_other g q)) -> x = q \/ In x (Group.iter g).
-Proof.
-  rewrite !in_iter. unfold push_other; cbn [known unknown other no_unit]. rewrite in_app_iff. cbn [In].
-  intros [H|[H|[[H|[H|[]]]|H]]]; auto 6.
-Qed.
-Lemma in_iter_set_no_unit g q x : In x (Group.iter (set_no_unit g q)) -> x = q \/ In x (Group.iter g).
-Proof.
-  rewrite !in_iter. unfold set_no_unit; cbn [known unknown other no_unit].
-  intros [H|[H|[H|H]]]; auto 6. inversion H; auto.
-Qed.
-Lemma in_iter_set_known g p q x : In x (Group.iter (set_known g p q)) -> x = q \/ In x (Group.iter g).
-Proof.
-  rewrite !in_iter. unfold set_known; cbn [known unknown other no_unit].
-  intros [(p' & H)|[H|[H|H]]]; auto 6. destruct (pq_eqb p' p); [inversion H; auto | right; left; eauto].
-Qed.
-Lemma in_iter_set_unknown g k q x : In x (Group.iter (set_unknown g k q)) -> x = q \/ In x (Group.iter g).
-Proof.
-  rewrite !in_iter. unfold set_unknown; cbn [known unknown other no_unit].
-  intros [H|[H|[H|H]]]; auto 6. destruct (in_map_insert _ _ _ _ H); auto.
-Qed.
-
-Lemma try_add_unit T' a b s : try_add T' a b = Done (Some s) -> qunit s = qunit a.
-Proof.
-  unfold try_add. destruct (compatible_unit T' a b) as [to|]; [|discriminate].
-  destruct (match to with Some u => convert_qty T' b u | None => Done (Some (qval b)) end) as [r|]; cbn [obind]; [|discriminate].
-  destruct r as [vb|]; [|discriminate]. destruct (value_add (qval a) vb); intro H; inversion H; reflexivity.
-Qed.
-
-Section UnitInvariant.
-  Variable P : qty -> Prop.
-  Hypothesis P_unit : forall a b, qunit a = qunit b -> P a -> P b.
-
-  Lemma add_to_forall T' g stored q store g' :
-    (forall s x, In x (Group.iter (store s)) -> x = s \/ In x (Group.iter g)) ->
-    Forall P (Group.iter g) -> In stored (Group.iter g) -> P q ->
-    add_to T' g stored q store = Done g' -> Forall P (Group.iter g').
-  Proof.
-    intros Hst Hg Hin Hq. unfold add_to. destruct (try_add T' stored q) as [r|] eqn:E; cbn [obind]; [|discriminate].
-    rewrite Forall_forall in Hg.
-    destruct r as [s|]; intro H; inversion H; subst g'; apply Forall_forall; intros x Hx.
-    - destruct (Hst _ _ Hx) as [->|Hx']; [|auto]. apply (P_unit stored); [symmetry; eapply try_add_unit; eassumption | auto].
-    - destruct (in_iter_push_other _ _ _ Hx) as [->|Hx']; auto.
-  Qed.
-
-  Lemma add_forall T' g q g' :
-    Forall P (Group.iter g) -> P q -> add T' g q = Done g' -> Forall P (Group.iter g').
-  Proof.
-    intros Hg Hq. unfold add.
-    assert (Hfresh : forall g1, (forall x, In x (Group.iter g1) -> x = q \/ In x (Group.iter g)) -> Forall P (Group.iter g1)).
-    { intros g1 H1. apply Forall_forall. intros x Hx. rewrite Forall_forall in Hg. destruct (H1 _ Hx) as [->|]; auto. }
-    destruct (is_text (qval q)).
-    { intro H; inversion H; subst. apply Hfresh. apply in_iter_push_other. }
-    destruct (qunit q) as [k|].
-    - destruct (find_unit T' k) as [u|].
-      + destruct (known g (upq u)) as [st|] eqn:K.
-        * apply add_to_forall; auto; [intros; eapply in_iter_set_known; eassumption | apply in_iter; eauto].
-        * intro H; inversion H; subst. apply Hfresh. apply in_iter_set_known.
-      + destruct (aget k (unknown g)) as [st|] eqn:K.
-        * apply add_to_forall; auto; [intros; eapply in_iter_set_unknown; eassumption|].
-          apply in_iter. right; left. clear -K. induction (unknown g) as [|[k' v'] r IH]; cbn [aget] in K; [discriminate|].
-          cbn [map snd In]. destruct (str_eqb k k'); [inversion K; auto | auto].
-        * intro H; inversion H; subst. apply Hfresh. apply in_iter_set_unknown.
-    - destruct (no_unit g) as [st|] eqn:K.
-      + apply add_to_forall; auto; [intros; eapply in_iter_set_no_unit; eassumption | apply in_iter; auto 6].
-      + intro H; inversion H; subst. apply Hfresh. apply in_iter_set_no_unit.
-  Qed.
-
-  Lemma add_all_forall T' qs : forall g g',
-    Forall P (Group.iter g) -> Forall P qs -> add_all T' g qs = Done g' -> Forall P (Group.iter g').
-  Proof.
-    induction qs as [|q r IH]; intros g g' Hg Hq; cbn [add_all].
-    - intro H; inversion H; subst; exact Hg.
-    - inversion Hq; subst. destruct (add T' g q) as [g1|] eqn:E; cbn [obind]; [|discriminate].
-      apply IH; [eapply add_forall; eassumption | assumption].
-  Qed.
-
-  Lemma fit_slots_forall fitq ps : forall g,
-    (forall q q', fitq q = Some q' -> P q -> P q') ->
-    Forall P (Group.iter g) -> Forall P (Group.iter (fst (fit_slots fitq g ps))).
-  Proof.
-    induction ps as [|p r IH]; intros g Hfit Hg; cbn [fit_slots fst]; [exact Hg|].
-    destruct (known g p) as [q|] eqn:K; [|apply IH; auto].
-    destruct (fitq q) as [q'|] eqn:F; [|exact Hg].
-    apply IH; [exact Hfit|]. apply Forall_forall. intros x Hx. rewrite Forall_forall in Hg.
-    destruct (in_iter_set_known _ _ _ _ Hx) as [->|]; [|auto].
-    apply (Hfit q q' F). apply Hg. apply in_iter. eauto.
-  Qed.
-End UnitInvariant.
-
-Lemma q_free_unit T a b : qunit a = qunit b -> q_free T a -> q_free T b.
-Proof. unfold q_free. intros E H k u. rewrite <- E. apply H. Qed.
-
-Definition gfree (T : table) (g : gq) : Prop := Forall (q_free T) (Group.iter g).
-
-Lemma gfree_empty T : gfree T gq_empty.
-Proof. constructor. Qed.
-
 (* ------------------------------------------------------------------ *)
 (* Part 4e: IngredientList                                             *)
 
@@ -1387,9 +1425,8 @@ Section Lists.
   Variable T : table.
   Variable fitq : qty -> option qty.
   Hypothesis Hsane : sane T = true.
-  (* C09: Quantity::fit keeps the amount and stays within offset-free units *)
-  Hypothesis fit_amount : forall q q', fitq q = Some q' -> contrib T q' ≡ contrib T q.
-  Hypothesis fit_free : forall q q', fitq q = Some q' -> q_free T q -> q_free T q'.
+  (* C09: Quantity::fit keeps the amount of offset-free quantities and stays within offset-free units *)
+  Hypothesis fit_ok : forall q q', q_free T q -> fitq q = Some q' -> contrib T q' ≡ contrib T q /\ q_free T q'.
 
   (* what recipe [all] lists under display name [n]: for each ingredient in
      recipe order, if it is a definition that should be listed and is shown
@@ -1403,19 +1440,6 @@ Section Lists.
     end.
 
   Definition recipe_lists (all : list ingredient) (n : str) : summary := listed_sum all n all 0.
-
-  Lemma group_quantities_free all i x g :
-    consistent all = true -> recipe_free T all -> nth_ing all i = Some x -> is_definition (irel x) = true ->
-    group_quantities T fitq all x = Done g -> gfree T g.
-  Proof.
-    intros Hc Hf Hx Hd. unfold group_quantities. rewrite (all_quantities_ok all i x Hc Hx Hd). cbn [obind].
-    destruct (add_all T gq_empty (owned all i x)) as [g0|] eqn:E; cbn [obind]; [|discriminate].
-    intro H; inversion H; subst g. unfold gfree, fit.
-    apply (fit_slots_forall (q_free T)); [exact fit_free|].
-    apply (add_all_forall (q_free T) (q_free_unit T) T (owned all i x) gq_empty g0); [constructor| |exact E].
-    apply Forall_forall. intros q Hq.
-    destruct (owned_in all i x q (proj2 (nth_ing_in _ _ _ Hx)) Hq) as (y & Hy & Ey). eapply Hf; eassumption.
-  Qed.
 
   Lemma group_from_listed all : consistent all = true -> recipe_free T all ->
     forall rest idx, (forall k, nth_error rest k = nth_error all (N.to_nat idx + k)) ->
@@ -1431,9 +1455,9 @@ Section Lists.
       { intro k. rewrite N2Nat.inj_add. change (N.to_nat 1) with 1%nat.
         replace (N.to_nat idx + 1 + k)%nat with (N.to_nat idx + S k)%nat by lia. rewrite <- Hn. reflexivity. }
       destruct (is_definition (irel x)) eqn:Hd.
-      + destruct (group_quantities_ok T fitq Hsane fit_amount all idx x Hc Hf Hx Hd) as (g & G1 & G2).
+      + destruct (group_quantities_ok T fitq Hsane fit_ok all idx x Hc Hf Hx Hd) as (g & G1 & G2 & G3).
         rewrite G1, H1. cbn [obind]. eexists. split; [reflexivity|]. split.
-        * constructor; [|exact H2]. cbn [snd]. eapply group_quantities_free; eassumption.
+        * constructor; [|exact H2]. cbn [snd]. exact G3.
         * intro n. rewrite listed_total_cons; cbn [fst snd andb].
           rewrite H3. destruct (should_be_listed x && str_eqb (display_name x) n); [rewrite G2|]; reflexivity.
       + rewrite H1. exists es. split; [reflexivity|]. split; [exact H2|]. intro n. cbn [andb].
@@ -1479,6 +1503,254 @@ Section Lists.
     apply splus_proper; [reflexivity|]. apply ssum_perm, Permutation_map, Hp.
   Qed.
 End Lists.
+
+From Coq Require Import Sorting.Sorted.
+(* ------------------------------------------------------------------ *)
+(* Part 4f: the BTreeMap model keeps its keys strictly increasing       *)
+
+Lemma str_ltb_irrefl a : str_ltb a a = false.
+Proof.
+  induction a as [|x a IH]; cbn [str_ltb]; [reflexivity|]. rewrite N.ltb_irrefl. exact IH.
+Qed.
+
+Lemma str_ltb_trans a : forall b c, str_ltb a b = true -> str_ltb b c = true -> str_ltb a c = true.
+Proof.
+  induction a as [|x a IH]; intros [|y b] [|z c]; cbn [str_ltb]; intros H1 H2; try discriminate; try reflexivity.
+  destruct (N.ltb_spec x y), (N.ltb_spec y x), (N.ltb_spec y z), (N.ltb_spec z y), (N.ltb_spec x z), (N.ltb_spec z x);
+    try discriminate; try reflexivity; try lia.
+  eapply IH; eassumption.
+Qed.
+
+Lemma str_ltb_total a : forall b, str_eqb a b = false -> str_ltb a b = false -> str_ltb b a = true.
+Proof.
+  induction a as [|x a IH]; intros [|y b]; cbn [str_ltb str_eqb]; intros H1 H2; try discriminate; try reflexivity.
+  destruct (N.ltb_spec x y), (N.ltb_spec y x); try discriminate; try reflexivity; try lia.
+  assert (x = y) by lia. subst y. rewrite N.eqb_refl in H1. cbn [andb] in H1. apply IH; assumption.
+Qed.
+
+Definition lt_str (a b : str) : Prop := str_ltb a b = true.
+
+(* strictly increasing keys *)
+Definition keys_sorted {V} (m : list (str * V)) : Prop := StronglySorted lt_str (map fst m).
+
+Lemma keys_sorted_nodup {V} (m : list (str * V)) : keys_sorted m -> NoDup (map fst m).
+Proof.
+  unfold keys_sorted. induction (map fst m) as [|k r IH]; intro H; [constructor|].
+  inversion H as [|? ? Hs Hf]; subst. constructor; [|auto].
+  intro Hin. rewrite Forall_forall in Hf. specialize (Hf _ Hin). unfold lt_str in Hf.
+  rewrite str_ltb_irrefl in Hf. discriminate.
+Qed.
+
+Lemma bt_alter_keys {V} k (f : option V -> outcome V) m : forall m',
+  bt_alter k f m = Done m' -> forall x, In x (map fst m') -> x = k \/ In x (map fst m).
+Proof.
+  induction m as [|[k' v'] r IH]; intros m'; cbn [bt_alter].
+  - destruct (f None); cbn [obind]; intro H; inversion H; subst. cbn [map fst In]. intros x Hx. intuition (subst; auto).
+  - destruct (str_eqb k k') eqn:E.
+    + destruct (f (Some v')); cbn [obind]; intro H; inversion H; subst. cbn [map fst In]. intros x Hx. intuition (subst; auto).
+    + destruct (str_ltb k k').
+      * destruct (f None); cbn [obind]; intro H; inversion H; subst. cbn [map fst In]. intros x Hx. intuition (subst; auto).
+      * destruct (bt_alter k f r) as [r'|] eqn:B; cbn [obind]; intro H; inversion H; subst.
+        cbn [map fst In]. intros x [Hx|Hx]; [auto|]. destruct (IH r' eq_refl x Hx); auto.
+Qed.
+
+Lemma bt_alter_sorted {V} k (f : option V -> outcome V) m : forall m',
+  keys_sorted m -> bt_alter k f m = Done m' -> keys_sorted m'.
+Proof.
+  unfold keys_sorted.
+  induction m as [|[k' v'] r IH]; intros m' Hs; cbn [bt_alter].
+  - destruct (f None); cbn [obind]; intro H; inversion H; subst. cbn. repeat constructor.
+  - cbn [map fst] in Hs. inversion Hs as [|? ? Hs' Hf]; subst.
+    destruct (str_eqb k k') eqn:E.
+    + apply str_eqb_eq in E. subst k'.
+      destruct (f (Some v')); cbn [obind]; intro H; inversion H; subst. cbn [map fst]. exact Hs.
+    + destruct (str_ltb k k') eqn:L.
+      * destruct (f None); cbn [obind]; intro H; inversion H; subst. cbn [map fst].
+        constructor; [exact Hs|]. constructor; [exact L|].
+        rewrite Forall_forall in *. intros x Hx. eapply str_ltb_trans; [exact L | apply Hf, Hx].
+      * destruct (bt_alter k f r) as [r'|] eqn:B; cbn [obind]; intro H; inversion H; subst.
+        cbn [map fst]. constructor; [apply (IH r' Hs' eq_refl)|].
+        rewrite Forall_forall in *. intros x Hx.
+        destruct (bt_alter_keys _ _ _ _ B x Hx) as [->|Hx']; [|apply Hf, Hx'].
+        apply str_ltb_total; assumption.
+Qed.
+
+Lemma add_entries_sorted T es : forall l l',
+  keys_sorted l -> add_entries T l es = Done l' -> keys_sorted l'.
+Proof.
+  induction es as [|[[i x] g] r IH]; intros l l' Hs; cbn [add_entries].
+  - intro H; inversion H; subst; exact Hs.
+  - destruct (should_be_listed x); [|apply IH; exact Hs].
+    destruct (add_ingredient T l (display_name x) g) as [l1|] eqn:E; cbn [obind]; [|discriminate].
+    apply IH. unfold add_ingredient in E. eapply bt_alter_sorted; eassumption.
+Qed.
+
+Lemma add_recipes_sorted T fitq rs : forall l l',
+  keys_sorted l -> add_recipes T fitq l rs = Done l' -> keys_sorted l'.
+Proof.
+  induction rs as [|all r IH]; intros l l' Hs; cbn [add_recipes].
+  - intro H; inversion H; subst; exact Hs.
+  - destruct (add_recipe T fitq l all) as [l1|] eqn:E; cbn [obind]; [|discriminate].
+    apply IH. unfold add_recipe in E.
+    destruct (group_ingredients T fitq all) as [es|]; cbn [obind] in E; [|discriminate].
+    eapply add_entries_sorted; eassumption.
+Qed.
+
+Lemma keys_sorted_nil {V} : keys_sorted (@nil (str * V)).
+Proof. constructor. Qed.
+
+(* every list built by add_recipes has distinct, strictly increasing keys *)
+Lemma add_recipes_nodup T fitq rs l :
+  add_recipes T fitq [] rs = Done l -> keys_sorted l /\ NoDup (map fst l).
+Proof.
+  intro H. assert (S : keys_sorted l) by (eapply add_recipes_sorted; [apply keys_sorted_nil | exact H]).
+  split; [exact S | apply keys_sorted_nodup, S].
+Qed.
+
+(* ... so categorize needs only the absence of a collision *)
+Lemma list_then_categorize T fitq rs l U inf :
+  add_recipes T fitq [] rs = Done l -> synonym_collision inf l = false ->
+  exists c, categorize false inf l = Done c /\ Permutation (entries c) (map (rekey inf) l)
+            /\ categorize_conserves U inf l c.
+Proof.
+  intros H Hc. apply categorize_conserves_ok; [|exact Hc]. apply (add_recipes_nodup T fitq rs l H).
+Qed.
+
+(* ------------------------------------------------------------------ *)
+(* Part 4g: cookware definitions and the amounts counted under them     *)
+
+Definition nth_cw (all : list cookware) (i : N) : option cookware := nth_error all (N.to_nat i).
+Definition cw_indices (all : list cookware) : list N := map N.of_nat (List.seq 0%nat (List.length all)).
+
+Definition cw_refers_to (all : list cookware) (i j : N) : bool :=
+  match nth_cw all j with
+  | Some y => match crel y with RRef t true => (t =? i)%N | _ => false end
+  | None => false
+  end.
+
+Definition cw_refs_to (all : list cookware) (i : N) : list N := filter (cw_refers_to all i) (cw_indices all).
+
+Definition amount_at (all : list cookware) (j : N) : list value :=
+  match nth_cw all j with Some y => opt_list (cqty y) | None => [] end.
+
+(* what is counted under cookware definition [x] at index [i]: its own amount,
+   then those of the references to it, in recipe order *)
+Definition cw_owned (all : list cookware) (i : N) (x : cookware) : list value :=
+  opt_list (cqty x) ++ flat_map (amount_at all) (cw_refs_to all i).
+
+Definition cw_consistent_at (all : list cookware) (i : N) (x : cookware) : bool :=
+  match crel x with
+  | RDef refs => list_N_eqb refs (cw_refs_to all i)
+  | RRef t true => (t <? i)%N && match nth_cw all t with Some y => is_definition (crel y) | None => false end
+  | RRef _ false => true
+  end.
+
+Definition cw_consistent (all : list cookware) : bool :=
+  forallb (fun j => match nth_cw all j with Some x => cw_consistent_at all j x | None => false end) (cw_indices all).
+
+Lemma in_cw_indices all i : In i (cw_indices all) <-> (N.to_nat i < List.length all)%nat.
+Proof.
+  unfold cw_indices. rewrite in_map_iff. split.
+  - intros (k & E & Hk). apply in_seq in Hk. subst i. rewrite Nat2N.id. lia.
+  - intro H. exists (N.to_nat i). split; [apply N2Nat.id|]. apply in_seq. lia.
+Qed.
+
+Lemma nth_cw_in all i x : nth_cw all i = Some x -> In i (cw_indices all).
+Proof. unfold nth_cw. intro H. apply in_cw_indices. apply nth_error_Some. congruence. Qed.
+
+Lemma cw_consistent_nth all i x :
+  cw_consistent all = true -> nth_cw all i = Some x -> cw_consistent_at all i x = true.
+Proof.
+  unfold cw_consistent. intros H Hx. rewrite forallb_forall in H.
+  specialize (H i (nth_cw_in _ _ _ Hx)). rewrite Hx in H. exact H.
+Qed.
+
+Lemma cw_refs_to_spec all i j :
+  In j (cw_refs_to all i) <-> exists y, nth_cw all j = Some y /\ crel y = RRef i true.
+Proof.
+  unfold cw_refs_to. rewrite filter_In. unfold cw_refers_to. split.
+  - intros [_ H]. destruct (nth_cw all j) as [y|]; [|discriminate]. exists y. split; [reflexivity|].
+    destruct (crel y) as [|t [|]]; try discriminate. apply N.eqb_eq in H. subst t. reflexivity.
+  - intros (y & Hy & Hr). split; [apply (nth_cw_in _ _ _ Hy)|]. rewrite Hy, Hr. apply N.eqb_refl.
+Qed.
+
+Lemma cw_refs_to_nodup all i : NoDup (cw_refs_to all i).
+Proof.
+  unfold cw_refs_to, cw_indices. apply NoDup_filter. apply FinFun.Injective_map_NoDup; [|apply seq_NoDup].
+  intros a b H. apply Nat2N.inj in H. exact H.
+Qed.
+
+Lemma cw_refs_after all i j : cw_consistent all = true -> In j (cw_refs_to all i) ->
+  (i < j)%N /\ exists x, nth_cw all i = Some x /\ is_definition (crel x) = true.
+Proof.
+  intros Hc Hj. apply cw_refs_to_spec in Hj as (y & Hy & Hr).
+  pose proof (cw_consistent_nth _ _ _ Hc Hy) as H. unfold cw_consistent_at in H. rewrite Hr in H.
+  apply andb_true_iff in H as [H1 H2]. apply N.ltb_lt in H1. split; [exact H1|].
+  destruct (nth_cw all i) as [x|]; [|discriminate]. exists x. auto.
+Qed.
+
+Lemma ref_amounts_ok all refs :
+  (forall j, In j refs -> In j (cw_indices all)) -> ref_amounts all refs = Done (flat_map (amount_at all) refs).
+Proof.
+  induction refs as [|j r IH]; intro H; cbn [ref_amounts flat_map]; [reflexivity|].
+  assert (Hj : In j (cw_indices all)) by (apply H; left; reflexivity).
+  apply in_cw_indices in Hj. unfold amount_at at 1, nth_cw.
+  destruct (nth_error all (N.to_nat j)) as [y|] eqn:E.
+  - rewrite IH by (intros; apply H; right; assumption). reflexivity.
+  - apply nth_error_None in E. lia.
+Qed.
+
+(* group_amounts never panics (no index out of range, no failed `expect`) and
+   holds exactly the owned amounts *)
+Lemma group_amounts_ok all i x :
+  cw_consistent all = true -> nth_cw all i = Some x -> is_definition (crel x) = true ->
+  exists g, group_amounts all x = Done g /\ gv_total g ≡ ssum (map vcontrib (cw_owned all i x)) /\ gv_wf g.
+Proof.
+  intros Hc Hx Hd. pose proof (cw_consistent_nth _ _ _ Hc Hx) as H. unfold cw_consistent_at in H.
+  unfold group_amounts, cw_owned. destruct (crel x) as [refs|]; [|discriminate]. cbn [referenced_from].
+  apply list_N_eqb_eq in H. subst refs.
+  rewrite ref_amounts_ok by (intros j Hj; unfold cw_refs_to in Hj; apply filter_In in Hj; tauto).
+  cbn [obind].
+  destruct (gv_add_all_spec (opt_list (cqty x) ++ flat_map (amount_at all) (cw_refs_to all i)) []) as (g & H1 & H2 & H3).
+  exists g. split; [exact H1|]. split.
+  - rewrite H2. change (gv_total []) with szero. apply splus_zero_l.
+  - apply H3. constructor.
+Qed.
+
+Fixpoint cw_def_indices (rest : list cookware) (idx : N) : list N :=
+  match rest with
+  | [] => []
+  | x :: r => if is_definition (crel x) then idx :: cw_def_indices r (idx + 1) else cw_def_indices r (idx + 1)
+  end.
+
+Definition cw_entry_ok (all : list cookware) (e : N * gv) : Prop :=
+  exists x, nth_cw all (fst e) = Some x /\ is_definition (crel x) = true /\
+            gv_total (snd e) ≡ ssum (map vcontrib (cw_owned all (fst e) x)) /\ gv_wf (snd e).
+
+Lemma cookware_from_ok all : cw_consistent all = true ->
+  forall rest idx, (forall k, nth_error rest k = nth_error all (N.to_nat idx + k)) ->
+  exists es, cookware_from all rest idx = Done es /\
+             map fst es = cw_def_indices rest idx /\ Forall (cw_entry_ok all) es.
+Proof.
+  intros Hc. induction rest as [|x r IH]; intros idx Hn; cbn [cookware_from cw_def_indices].
+  - exists []. repeat split. constructor.
+  - assert (Hx : nth_cw all idx = Some x).
+    { unfold nth_cw. rewrite <- (Nat.add_0_r (N.to_nat idx)), <- Hn. reflexivity. }
+    destruct (IH (idx + 1)%N) as (es & H1 & H2 & H3).
+    { intro k. rewrite N2Nat.inj_add. change (N.to_nat 1) with 1%nat.
+      replace (N.to_nat idx + 1 + k)%nat with (N.to_nat idx + S k)%nat by lia. rewrite <- Hn. reflexivity. }
+    destruct (is_definition (crel x)) eqn:Hd.
+    + destruct (group_amounts_ok all idx x Hc Hx Hd) as (g & G1 & G2 & G3).
+      rewrite G1, H1. cbn [obind]. eexists. split; [reflexivity|]. split.
+      * cbn [map fst]. rewrite H2. reflexivity.
+      * constructor; [|exact H3]. exists x. cbn [fst snd]. auto.
+    + rewrite H1. exists es. auto.
+Qed.
+
+Lemma group_cookware_ok all : cw_consistent all = true ->
+  exists es, group_cookware all = Done es /\
+             map fst es = cw_def_indices all 0 /\ Forall (cw_entry_ok all) es.
+Proof. intro Hc. unfold group_cookware. apply cookware_from_ok; auto. Qed.
 
 From Coq Require Import String Ascii.
 
@@ -1539,12 +1811,13 @@ Proof. intros k u _ F. apply pq_free_b_ok. destruct (upq u); vm_compute; reflexi
 
 Lemma list_hyps_sat :
   exists T (fitq : qty -> option qty) all,
-    sane T = true /\ (forall q q', fitq q = Some q' -> contrib T q' ≡ contrib T q) /\
-    (forall q q', fitq q = Some q' -> q_free T q -> q_free T q') /\
+    sane T = true /\
+    (forall q q', q_free T q -> fitq q = Some q' -> contrib T q' ≡ contrib T q /\ q_free T q') /\
     consistent all = true /\ recipe_free T all /\ refs_to all 0 = [2%N].
 Proof.
   exists w_T, (fun q => Some q), w_recipe2.
-  split; [vm_compute; reflexivity|]. split; [intros q q' H; inversion H; reflexivity|].
-  split; [intros q q' H; inversion H; subst; auto|]. split; [vm_compute; reflexivity|].
+  split; [vm_compute; reflexivity|].
+  split; [intros q q' Hq H; inversion H; subst; split; [reflexivity | exact Hq]|].
+  split; [vm_compute; reflexivity|].
   split; [intros y q _ _; apply w_T_free | vm_compute; reflexivity].
 Qed.
